@@ -6,7 +6,7 @@ package main
 // ---- forwardRequest: what reaches the handler chain (C09, C02), under which ids (C01), how often (C04) ----
 //@ pure userIDKey() string = canon("X-Inverting-Proxy-User-ID")
 //@ func forwardRequest props(C09,C01,C02,C04,C07)
-//@   requires request != nil && request.Contents != nil && request.Contents.Header != nil && hostProxy != nil
+//@   requires request != nil && request.Contents != nil && request.Contents.Header != nil && hostProxy != nil && client != nil
 //@   ghost served int = 0
 //@   call utils.NewResponseForwarder
 //@     assert[C01:forwarder-bound-to-this-request] arg2 == request.BackendID && arg3 == request.RequestID && arg4 == request.Contents
@@ -36,7 +36,7 @@ package main
 
 //@ func processOneRequest$1 props(C01,C04,C07)
 //@   at if err := forwardRequest(client, hostProxy, request); err != nil
-//@   requires request != nil && request.Contents != nil && request.Contents.Header != nil && hostProxy != nil
+//@   requires request != nil && request.Contents != nil && request.Contents.Header != nil && hostProxy != nil && client != nil
 //@   ghost fwd int = 0
 //@   call forwardRequest
 //@     assert[C01:forward-the-fetched-request] arg1 == hostProxy && arg2 == request
